@@ -459,6 +459,8 @@ API_NOTES = {
              'load': 'MeshDG.load / save raise NotImplementedError by design',
              'save': 'MeshDG.load / save raise NotImplementedError by design'}
 
+API_NOTES.update({n: 'save / load: exercised by the check of property C17' for n in ['from_file', 'to_file', 'from_meshio', 'to_meshio', 'from_dict', 'to_dict', 'load', 'save', 'load_npz', 'save_npz', 'strip_extra_coordinates', 'refdom']})
+
 
 def replay(ctx, data):
     ctx.log('replaying', data.get('key'))
